@@ -2,8 +2,8 @@
 """prints the detection matrix of the seeded changes as a markdown table (from seeded/*/meta.json)"""
 import glob, json, os, re
 VERIF = os.path.abspath(os.path.join(os.path.dirname(__file__), '..'))
-print('| seeded change | property | what it needs | caught by (quick tier) | concrete replay |')
-print('|---|---|---|---|---|')
+import sys
+rows = ['| seeded change | property | what it needs | caught by (quick tier) | concrete replay |', '|---|---|---|---|---|']
 for d in sorted(glob.glob(os.path.join(VERIF, 'seeded', '*'))):
     m = json.load(open(os.path.join(d, 'meta.json')))
     needs = m.get('summary') or ''
@@ -18,4 +18,12 @@ for d in sorted(glob.glob(os.path.join(VERIF, 'seeded', '*'))):
             streams = sorted({re.sub(r'^\[check\] ', '', l).split(' ')[0].rstrip(':') for l in r['log'] if l.startswith('[check] ') and not l.startswith('[check] C')})
             by.append('%s: %s' % (p, ', '.join(s.replace('|', '/') for s in streams[:4])))
             concrete = concrete or any('no-failing-input-found' not in l for l in r['violation_lines'])
-    print('| %s | %s | %s | %s | %s |' % (m['id'], ','.join(m['breaks']), needs[:220], '; '.join(by) or '**missed**', 'yes' if concrete else ('no' if by else '-')))
+    rows.append('| %s | %s | %s | %s | %s |' % (m['id'], ','.join(m['breaks']), needs[:220], '; '.join(by) or '**missed**', 'yes' if concrete else ('no' if by else '-')))
+
+if '--design' in sys.argv:
+    p = os.path.join(VERIF, 'DESIGN.md')
+    s = open(p).read()
+    a, b = s.index('<!-- matrix:begin -->'), s.index('<!-- matrix:end -->')
+    open(p, 'w').write(s[:a] + '<!-- matrix:begin -->\n' + '\n'.join(rows) + '\n' + s[b:])
+else:
+    print('\n'.join(rows))
